@@ -342,12 +342,25 @@ def combined_sha(repo, res: Dict[str, Any], key: str = "relpath") -> str:
     """hash of the verified function's source and of every repository function the executor inlined into it"""
     import hashlib
     h = hashlib.sha256((res.get("sha256") or "").encode())
+    files = set()
+    rp0 = res.get("relpath") or res.get("file")
+    if rp0 and not str(rp0).startswith("<"):
+        files.add(rp0)
     for name in sorted(res.get("inlined") or []):
         try:
             rp, qn = name.split(":", 1)
             h.update(repo.func(rp, qn).sha256.encode())
+            files.add(rp)
         except Exception:
             h.update(name.encode())
+    # module-level constants, class attributes and imports are not part of any function's source: the whole text of the
+    # files involved is part of the fingerprint as well (so "unchanged" really means the files are untouched)
+    for rp in sorted(files):
+        try:
+            with open(os.path.join(os.environ.get("PYVC_REPO", "/repo"), rp), "rb") as f:
+                h.update(hashlib.sha256(f.read()).digest())
+        except OSError:
+            h.update(rp.encode())
     return h.hexdigest()
 
 
@@ -466,6 +479,10 @@ def run_check(prop: str, tier: str) -> int:
             # the function (or something inlined into it) differs from the tree the baseline was recorded on
             changed = fkey in base_sha and base_sha[fkey] != combined_sha(repo, res)
             failing = v["status"] in (solve.REFUTED, solve.CANDIDATE) or (norm(v["name"]) in base_proved and changed)
+            # lemmas have no source of their own: they are "changed" when anything was (conservatively: never silenced)
+            # (a lemma is a statement over the contracts and specification functions only: /repo cannot make it fail, so
+            # without a natively reproduced input a failing lemma is never reported as a violation)
+            untouched = (fkey in base_sha and not changed) or res["relpath"] == "<lemma>"
             if not confirmed and failing and res["relpath"] != "<lemma>":
                 # refutation fallback: one bounded native search per function
                 if fkey not in search_cache:
@@ -485,7 +502,7 @@ def run_check(prop: str, tier: str) -> int:
             if confirmed:
                 path = write_replay(prop, confirmed[0])
                 violations.append((v["name"], path, True))
-            elif failing and norm(v["name"]) in base_proved and not inv_broken:
+            elif failing and norm(v["name"]) in base_proved and not inv_broken and not untouched:
                 spec = reps[0] if reps else {"property": prop, "obligation": v["name"], "clause": v["text"],
                                              "function": f"{res['relpath']}:{res['qualname']}"}
                 spec["note"] = ("no-failing-input-found: obligation was PROVED on the pristine tree"
@@ -495,6 +512,9 @@ def run_check(prop: str, tier: str) -> int:
                 path = write_replay(prop, spec)
                 violations.append((v["name"], path, False))
             else:
+                if untouched and failing:
+                    v = dict(v, reason=(v.get("reason") or "") + " [the files of this function are byte-identical to the baseline: "
+                                       "a failing proof here is solver trouble, not a change of behaviour]")
                 undecided.append(f"{v['name']}: {v['status']} {v.get('reason', '')}"
                                  + (" [a sidecar loop invariant of this function no longer holds]" if inv_broken else ""))
                 if os.environ.get("PYVC_DEBUG") and reps:
